@@ -43,6 +43,14 @@ def install(R):
             raise Unsupported("glob pattern that is not a crop batches/results pattern")
         G = z3.Const(fresh_name("globbed"), V)
         st.assume(z3.And(T.is_VObj(G), T.tag(G) == T.TAG["list"], T.sdistinct(G), T.slen(G) == which(st.ghost["FS_ex"].t, loc)))
+        # every listed name is a visible file of that directory whose name is the template at some id >= 1
+        k_ = z3.Int(fresh_name("k"))
+        gid = z3.Function("glob_id", V, Int, Int)
+        pathf = S["ResultPath"] if which is CountR else S["BatchPath"]
+        elem = pathf(eng, fr, mk_V(loc), mk_int(gid(G, k_))).t
+        st.assume(z3.ForAll([k_], z3.Implies(z3.And(0 <= k_, k_ < T.slen(G)),
+                                             z3.And(T.sget(G, k_) == elem, gid(G, k_) >= 1, z3.Select(st.ghost["FS_ex"].t, T.sget(G, k_)))),
+                            patterns=[T.sget(G, k_)]))
         st.assumed.append("glob.glob over a crop directory: duplicate-free list of the visible matching files")
         return [Outcome("normal", st, val=SV("V", G, meta={"seq": True}))]
     R.externals["glob.glob"] = ext_glob
@@ -50,11 +58,27 @@ def install(R):
     fs_, l_, b_ = z3.Const("fs!", ArrVB), z3.Const("l!", V), z3.Int("b!")
     AX.append(("count_nonneg", z3.ForAll([fs_, l_], z3.And(CountB(fs_, l_) >= 0, CountR(fs_, l_) >= 0), patterns=[CountB(fs_, l_), CountR(fs_, l_)])))
 
+    done = []
+
+    def ensure_count_axioms(eng, fr):
+        """a visible result / batch file with id >= 1 is counted by the glob of its directory"""
+        if done:
+            return
+        done.append(1)
+        for pathf, cnt, nm in ((S["ResultPath"], CountR, "results"), (S["BatchPath"], CountB, "batches")):
+            pt = pathf(eng, fr, mk_V(l_), mk_int(b_)).t
+            eng.axioms.append((f"visible_file_is_counted[{nm}]",
+                               z3.ForAll([fs_, l_, b_], z3.Implies(z3.And(b_ >= 1, z3.Select(fs_, pt)), cnt(fs_, l_) >= 1),
+                                         patterns=[z3.MultiPattern(cnt(fs_, l_), pt)])))
+    R.symbols["ensure_count_axioms"] = ensure_count_axioms
+
     def count_results(eng, fr, loc):
+        ensure_count_axioms(eng, fr)
         return mk_int(CountR(fr.st.ghost["FS_ex"].t, eng.as_V(loc)))
     S["CountResults"] = count_results
 
     def count_batches(eng, fr, loc):
+        ensure_count_axioms(eng, fr)
         return mk_int(CountB(fr.st.ghost["FS_ex"].t, eng.as_V(loc)))
     S["CountBatches"] = count_batches
 
